@@ -8,6 +8,8 @@ from .. import paths
 from ..core import FUNC, AnalysisError, inert, call_attr, calls_in, const, dotted, is_const, kwarg, norm, slice_parts, text, walk_local
 
 EXPLANATION = [
+    'C20.enum-agreement: the set / dict attributes of AgProtocol and HfProtocol are tested and emptied (discard, remove, in) with members of the enum types they are filled with: a member of another enum spelled alike is a different key.',
+    'C20.fifo: every deque of the anchored modules that is filled with append / extend is emptied with popleft or by iteration (never pop()), and conversely: queued entries come out in the order they went in.',
     "C20.identity: no `is` / `is not` comparison in the anchored modules has an operand declared as a number, byte string or string (identity of equal integers holds only inside CPython's small-integer cache, so such a test is right for values up to 256 and wrong afterwards).",
     'C20.iter-mutation: no loop over a live dict view (`.values()` / `.items()` / `.keys()` of an attribute table) has a body that, through the methods it calls (resolved by name, three levels, local aliases of the table followed), inserts into or removes from the same table; iterating a copy or a sub-table detached with pop() first is accepted.',
     'C20.frame-info: RFCOMM_Frame.from_bytes takes the information field as data[3:-1] (one-octet length indicator) or data[4:-1] (two octets), i.e. everything between header and FCS, in both arms of the EA-bit test.',
@@ -1221,7 +1223,19 @@ def identity_rule(ctx):
     identity_compare(ctx, 'C20.identity', ['bumble.rfcomm', 'bumble.hfp'])
 
 
+def fifo_rule(ctx):
+    from ..generic_rules import fifo_discipline
+    fifo_discipline(ctx, 'C20.fifo', ['bumble.rfcomm', 'bumble.hfp'])
+
+
+def enum_agreement_rule(ctx):
+    from ..generic_rules import enum_member_agreement
+    enum_member_agreement(ctx, 'C20.enum-agreement', ['bumble.hfp.AgProtocol', 'bumble.hfp.HfProtocol'])
+
+
 RULES = [
+    ('C20.enum-agreement', enum_agreement_rule),
+    ('C20.fifo', fifo_rule),
     ('C20.identity', identity_rule),
     ('C20.iter-mutation', iter_mutation_rule),
     ('C20.frame-info', frame_info),
